@@ -1,6 +1,6 @@
 """C14 - name lookup returns exactly the declarations on the scope chain.
 
-Space : identifiers {a,b,c}; the 39 FQNs of length <=3. Declaration sets = the full set (every FQN
+Space : identifiers {a,b,ab}; the 39 FQNs of length <=3. Declaration sets = the full set (every FQN
         declared, kinds cycling over the 7 searched containers) + every set of <=1 (quick) / <=2
         (thorough, incl. one FQN declared under two kinds) declarations, built by adding one
         declaration at a time; x every searched name (39) x every calling scope (None + 40).
@@ -13,7 +13,7 @@ import itertools
 from ..core import Partial, pmap
 
 PID = 'C14'
-IDS = ['a', 'b', 'c']
+IDS = ['a', 'b', 'ab']     # 'ab' has 'a' as a proper STRING prefix: dotted-string shortcuts must not confuse them
 FQNS = [list(t) for n in (1, 2, 3) for t in itertools.product(IDS, repeat=n)]
 SCOPES = [None] + [list(t) for n in (0, 1, 2, 3) for t in itertools.product(IDS, repeat=n)]
 KINDS = ['component', 'enum', 'extern', 'foreign', 'interface', 'subint', 'system']
@@ -290,7 +290,7 @@ def explore(ctx):
     jobs += [('idlists', None)]
     for part in pmap(work, jobs):
         ctx.merge(part)
-    ctx.rule = ('declaration sets built one declaration at a time over the 39 FQNs of {a,b,c}^<=3 (full set, '
+    ctx.rule = ('declaration sets built one declaration at a time over the 39 FQNs of {a,b,ab}^<=3 (full set, '
                 f'all sets of <= {2 if pairs else 1}); each set queried with all 39 names x 41 scopes through '
                 'find_fqn / scope_resolution_order / find_any; all strings of length <= '
                 f'{maxlen} over a 10-symbol alphabet through namespaceids_t; all id lists of length <=3 through '
